@@ -378,7 +378,15 @@ func c05r4(r *R) {
 			why = append(why, "keyword "+kw+" maps to "+got)
 		}
 	}
+	if len(ps) != len(modes)+1 {
+		// the table may be a map: parseMode answers m[keyword] when present and DIRECT otherwise
+		if tw, ok := parseModeMapTable(r, pm, ps, modes); ok {
+			r.check(len(tw) == 0, "pac.parseMode#table", pm.Pos(), "keyword table (map): every keyword maps to its mode, unknown ⇒ DIRECT", strings.Join(tw, "; "))
+			goto afterTable
+		}
+	}
 	r.check(len(ps) == len(modes)+1 && len(why) == 0, "pac.parseMode#table", pm.Pos(), "every keyword maps to its mode, unknown ⇒ DIRECT", strings.Join(why, "; ")+fmt.Sprintf(" (%d paths for %d modes)", len(ps), len(modes)))
+afterTable:
 }
 
 func c05r5(r *R) {
@@ -605,4 +613,75 @@ func c05r8(r *R) {
 	if n == 0 {
 		r.bad("NewHTTPTransport#proxy-nil", nt.Pos(), "no successful return found")
 	}
+}
+
+// parseModeMapTable recognises `if m, ok := table[s]; ok { return m }; return DIRECT` over a package-level
+// map literal and checks the literal: one entry per mode constant, under that mode's own keyword.
+func parseModeMapTable(r *R, pm *ssa.Function, ps []Path, modes map[string]string) ([]string, bool) {
+	var g *ssa.Global
+	eachInstr(pm, func(ins ssa.Instruction) {
+		if lk, ok := ins.(*ssa.Lookup); ok {
+			if u, ok := lk.X.(*ssa.UnOp); ok {
+				if gg, ok := u.X.(*ssa.Global); ok && describe(lk.Index) == "$0" {
+					g = gg
+				}
+			}
+		}
+	})
+	if g == nil || len(ps) != 2 {
+		return nil, false
+	}
+	var why []string
+	for _, p := range ps {
+		hit := p.hasCond(func(c string) bool { return strings.HasSuffix(c, "[$0]#1") && !strings.HasPrefix(c, "!") })
+		if hit && !strings.HasSuffix(p.Ret[0], "[$0]") {
+			why = append(why, "a keyword found in the table yields "+p.Ret[0])
+		}
+		if !hit && modes[p.Ret[0]] != "DIRECT" {
+			why = append(why, "unknown keyword maps to "+modes[p.Ret[0]])
+		}
+	}
+	// the literal
+	seen := map[string]bool{}
+	init := r.pkg("pac").Func("init")
+	var mm ssa.Value
+	eachInstr(init, func(ins ssa.Instruction) {
+		if st, ok := ins.(*ssa.Store); ok && st.Addr == ssa.Value(g) {
+			mm = st.Val
+		}
+	})
+	if mm == nil {
+		return append(why, "the keyword table is not initialised in the package"), true
+	}
+	nStores := 0
+	for _, fn := range r.modFuncsAll() {
+		eachInstr(fn, func(ins ssa.Instruction) {
+			switch x := ins.(type) {
+			case *ssa.MapUpdate:
+				if x.Map == mm {
+					k, _ := constString(x.Key)
+					name := modes[describe(x.Value)]
+					if name != k {
+						why = append(why, "keyword "+k+" maps to "+name)
+					}
+					seen[name] = true
+				} else if u, ok := x.Map.(*ssa.UnOp); ok && u.X == ssa.Value(g) {
+					why = append(why, "the keyword table is modified in "+fname(fn))
+				}
+			case *ssa.Store:
+				if x.Addr == ssa.Value(g) {
+					nStores++
+				}
+			}
+		})
+	}
+	if nStores != 1 {
+		why = append(why, fmt.Sprintf("the keyword table is assigned %d times", nStores))
+	}
+	for _, name := range modes {
+		if !seen[name] {
+			why = append(why, "mode "+name+" has no keyword in the table")
+		}
+	}
+	return dedupStrings(why), true
 }
